@@ -32,7 +32,7 @@ def config_text(spec):
     lines = []
     for name, med in sorted(spec['routes'].items()):
         nh = '2001:db8::1' if name == 'V6' else '192.0.2.1'
-        lines.append(f'\t\troute {R[name]} next-hop {nh}' + (f' med {med}' if med is not None else '') + ';')
+        lines.append(f'\t\troute {R[name]} next-hop {nh}' + (f' med {med}' if med is not None else '') + (' ' + spec['tail'][name] if name in spec.get('tail', {}) else '') + ';')
     extra = 'passive true;' if spec.get('passive') else ''
     if spec.get('nocache'):
         # no Adj-RIB-Out cache: adj-rib-out is off by default and only switched on by route-refresh
@@ -523,3 +523,53 @@ def reloads_in_a_row(tier, seed):
 @replayer('C17', 'reloads-in-a-row')
 def _replay_chain(f):
     return chain_case(f['input']['configurations'], f['input']['session_up_during_reloads']) is None
+
+
+# ---------------------------------------------------------------------------------------------------------------------
+# routes which leave the configuration are gone for good: the watchdog they belonged to cannot bring them back
+def watchdog_case(up):
+    old = dict(routes={'A': 10, 'B': None, 'C': 5}, hold=180, tail={'B': 'watchdog dog', 'C': 'watchdog cat withdraw'})
+    new = dict(routes={'A': 10}, hold=180)
+    inp = {'old': old, 'new': new, 'session_up_during_reload': up, 'then': ['announce watchdog cat', 'withdraw watchdog dog', 'announce watchdog dog']}
+    try:
+        w = World(old)
+        key = list(w.peers())[0]
+        w.connect(key)
+        w.turn(key)
+        first = dict(w.tables[key].table)
+        if not up:
+            w.disconnect(key)
+        if w.reload(new) is not True:
+            return {'what': f'a valid new configuration was refused: {w.reactor.configuration.error}', 'input': inp}
+        if not up:
+            w.connect(key)
+        for _ in range(3):
+            w.turn(key)
+        rib = w.peers()[key].neighbor.rib.outgoing
+        rib.announce_watchdog('cat')
+        rib.withdraw_watchdog('dog')
+        rib.announce_watchdog('dog')
+        for _ in range(3):
+            w.turn(key)
+    except Exception as e:  # noqa
+        import traceback
+
+        return {'what': f'reload path raised {type(e).__name__}: {str(e)[:200]}', 'input': inp, 'trace': traceback.format_exc()[-600:]}
+    if up and len(first) != 2:
+        return {'what': f'harness: the first table is not the two announced routes of the old configuration: {sorted(first.items())}', 'input': inp}
+    want = expected_table(new, [])
+    got = w.tables[key].table
+    if want != got:
+        return {'what': 'a route removed from the configuration was announced again through its watchdog', 'input': inp, 'expected': str(sorted(want.items())), 'observed': str(sorted(got.items()))}
+    return None
+
+
+@bounded('C17', 'watchdog-routes-removed')
+def watchdog_routes_removed(tier, seed):
+    fails = [f for f in (watchdog_case(True), watchdog_case(False)) if f]
+    return {'evaluations': 2, 'distinct_nontrivial': 2, 'bound': 'one history (a configured route of watchdog dog, announced; one of watchdog cat, held back; both removed by a reload; then announce watchdog cat / withdraw watchdog dog / announce watchdog dog), session up or down during the reload', 'rule': 'one case = session state', 'samples': [{'session_up_during_reload': True}], 'failures': fails}
+
+
+@replayer('C17', 'watchdog-routes-removed')
+def _replay_watchdog(f):
+    return watchdog_case(f['input']['session_up_during_reload']) is None
